@@ -252,7 +252,7 @@ def run(ctx):
     scripts = [(t, json.loads(s)) for s, t in sorted(uniq.items())]
     import random
     rnd = random.Random(ctx.seed)
-    cap_long, cap_all = (120, 2000) if q else (3000, 60000)
+    cap_long, cap_all = (120, 2000) if q else (2000, 30000)
     longs = [x for x in scripts if x[0] == "s_all"]
     rnd.shuffle(longs)
     keep = [x for x in scripts if x[0] == "s_impl"] + longs[:cap_long]
